@@ -16,13 +16,13 @@ pub fn gen_transport(r: &mut Rng) -> Vec<Tree> {
         ChanCfg { id: 2, max: 100_000, ty: 1, resend_ns: *r.pick(&[0u64, 100 * MS, 300 * MS]) },
     ];
     let t0 = *r.pick(&[0u64, 7 * SEC]);
-    let max = *r.pick(&[1u64, 2, 2, 4]);
+    let max = *r.pick(&[1u64, 2, 2, 4, 4]);
     let protocol = 7u64;
     let key = r.bytes(32);
     let budget = *r.pick(&[3000u64, 60000]);
     ops.push(l(vec![n(200u8), n(t0), n(max), n(protocol), l(vec![n(1u8), b(&key)]), n(budget), cfg_tree(&cfg), cfg_tree(&cfg)]));
-    let nclients = r.range(1, 2);
-    let ids = [11u64, if r.chance(1, 6) { 11 } else { 22 }];
+    let nclients = *r.pick(&[1u64, 2, 2, 3]);
+    let ids = [11u64, if r.chance(1, 6) { 11 } else { 22 }, 33];
     let mut tk = 0u64;
     let mut token = |r: &mut Rng, ops: &mut Vec<Tree>, k: u64, now: u64| -> u64 {
         let t = tk;
@@ -41,7 +41,7 @@ pub fn gen_transport(r: &mut Rng) -> Vec<Tree> {
     let mut pl = Payloads::new();
     let sizes = [0usize, 1, 50, 1199, 1200, 1201, 2500, 4000];
     let steps = r.range(20, 70);
-    let focus: Option<usize> = if r.chance(1, 3) { Some(*r.pick(&[18usize, 19, 12, 13, 14])) } else { None };
+    let focus: Option<usize> = if r.chance(1, 3) { Some(*r.pick(&[18usize, 19, 20, 20, 12, 13, 14])) } else { None };
     for step in 0..steps {
         let k = r.below(nclients);
         let id = ids[k as usize];
@@ -49,7 +49,7 @@ pub fn gen_transport(r: &mut Rng) -> Vec<Tree> {
         let mutk = |r: &mut Rng| -> (u64, u64, u64) {
             if r.chance(4, 5) { (0, 0, 0) } else { (r.range(1, 4), r.below(11000), r.below(256)) }
         };
-        let w: [u32; 21] = [18, 5, 5, 10, 10, 5, 5, 8, 8, 6, 6, 5, 3, 3, 2, 2, 1, 2, 3, 2, 2];
+        let w: [u32; 22] = [18, 5, 5, 10, 10, 5, 5, 8, 8, 6, 6, 5, 3, 3, 2, 2, 1, 2, 3, 2, 2, 2];
         let case = match focus {
             Some(f) if step == 4 || step == 15 => f,
             _ => r.weighted(&w),
@@ -125,6 +125,38 @@ pub fn gen_transport(r: &mut Rng) -> Vec<Tree> {
             15 => ops.push(l(vec![n(226u8), n(id)])),
             16 => ops.push(l(vec![n(210u8)])),
             17 => ops.push(l(vec![n(229u8), n(*r.pick(&[1u64, 2, 4]))])),
+            20 => {
+                // a hole in the server's slot table: everybody connects, the first one leaves, then the last one; the ones
+                // in between must keep their sessions, their traffic and their place in both tables
+                ops.push(l(vec![n(229u8), n(4u8)]));
+                for j in 0..nclients {
+                    ops.push(l(vec![n(260u16), n(j), n(4u8), n(250 * MS)]));
+                }
+                ops.push(l(vec![n(227u8)]));
+                let leave = |ops: &mut Vec<Tree>, j: u64| {
+                    ops.push(l(vec![n(209u8), n(j)]));
+                    ops.push(l(vec![n(250u8), n(j), n(0u8), n(0u8), n(0u8), n(0u8)]));
+                    ops.push(l(vec![n(205u8), n(16 * MS)]));
+                };
+                leave(&mut ops, 0);
+                if nclients >= 3 {
+                    leave(&mut ops, nclients - 1);
+                }
+                ops.push(l(vec![n(227u8)]));
+                ops.push(l(vec![n(233u8)]));
+                for j in 1..nclients {
+                    let len = *r.pick(&[1usize, 50, 2500]);
+                    ops.push(l(vec![n(222u8), n(ids[j as usize]), n(2u8), b(&pl.make(r, len))]));
+                    ops.push(l(vec![n(220u8), n(j), n(2u8), b(&pl.make(r, len))]));
+                    ops.push(l(vec![n(260u16), n(j), n(3u8), n(250 * MS)]));
+                    for _ in 0..2 {
+                        ops.push(l(vec![n(221u8), n(j), n(2u8)]));
+                        ops.push(l(vec![n(224u8), n(ids[j as usize]), n(2u8)]));
+                    }
+                }
+                ops.push(l(vec![n(225u8)]));
+                ops.push(l(vec![n(227u8)]));
+            }
             18 => {
                 // the application disconnects the message layer of the client, then the transport is updated
                 ops.push(l(vec![n(232u8), n(k)]));
